@@ -55,4 +55,22 @@ theorem frac_truncated : frac_truncated_statement := by
 example : 1 ≤ 3 ∧ 3 ≤ 15 ∧ (0 : Int) ≤ 999999999999999 ∧ (999999999999999 : Int) < 1000000000000000 ∧
     fracDigits 3 999999999999999 = ofString "999" := by decide +kernel
 
+theorem full_roundtrip : full_roundtrip_statement := by
+  intro al t fs z' sf sp hv hsec ho1 ho2 _ ht1 ht2 h0 h1
+  exact Wr.full_roundtrip al t fs z' sf sp hv hsec ho1 ho2 ht1 ht2 h0 h1
+
+/-! hypotheses satisfiable: 2024-02-29 23:59:58.5 at UTC-03:30:15 is the instant 1709263813; the text
+is "2024-02-29T23:59:58.5-03:30:15" and parse (in any zone; here an empty table) reads it back -/
+example : Valid ⟨2024, 2, 29, 23, 59, 58⟩ ∧ secNum ⟨2024, 2, 29, 23, 59, 58⟩ = 1709263813 + -12615 ∧
+    (-86400 : Int) < -12615 ∧ (-12615 : Int) < 86400 ∧ inI64 1709263813 ∧ i64min + 86400 ≤ 1709263813 ∧
+    (1709263813 : Int) ≤ i64max - 86400 ∧ (0 : Int) ≤ 500000000000000 ∧ (500000000000000 : Int) < 1000000000000000 := by
+  decide +kernel
+example :
+    let al : Tz.AbsLookup := ⟨⟨2024, 2, 29, 23, 59, 58⟩, -12615, false, ofString "X"⟩
+    let text := render (fun _ _ => []) (formatSegs fmtFull al 1709263813 500000000000000).val.1
+      (formatSegs fmtFull al 1709263813 500000000000000).val.2
+    text = ofString "2024-02-29T23:59:58.5-03:30:15" ∧
+    (parse (fun _ _ _ => none) fmtFull text {}).val.1 = .ok 1709263813 500000000000000 := by
+  decide +kernel
+
 end Cctz.C07Whole
